@@ -27,6 +27,12 @@ RULE = ('certificate hierarchies of chain length 1..4 built with the real securi
         'silence/Nack/NetworkError, unsigned: no SignatureInfo/digest/KeyDigest locator/empty-name locator, wrong or '
         'unknown or HMAC signature type, self/2-cycle certificate loop) injected at every link; anchors: good, wrong name '
         'shape, not self-signed, forged, HMAC, unsigned, no content, undecodable, schema with a missing user function; '
+        'roots-of-trust family: 14 schemas generated from a description (0..3 root rules whose patterns are '
+        'disjoint / overlapping through a wildcard / identical / of different depth / constrained to overlapping '
+        'literal sets, optionally an intermediate certificate rule) x 8 anchor key names, each a properly self-signed '
+        '(or signed-by-other) certificate that matches all roots, some but not all, only non-root rules, or nothing; '
+        'then data of every root zone validated; the compiled schema\'s roots and matches are cross-checked against '
+        'the description; '
         'histories: up to 3 instances (different anchors / schemas / explicit or default storage) x up to 3 packets in '
         'sampled (quick) or all (thorough) orders; one instance validating packets of ONE key whose KeyLocators name different '
         'certificates of it (other version / issuer id; the second one valid, missing, Nack, forged or wrongly signed).  non-trivial = at least one validation that needs a certificate '
@@ -80,6 +86,63 @@ LVS_NOFN = r'''
 #doc: "lvs"/"doc"/x & {x: $no_such_fn()} <= #root
 '''
 
+# ---- schemas with SEVERAL roots of trust --------------------------------------------------------------
+# A root rule is  "lvs"/<items>/"KEY"/_/_/_  where an item is a literal, a wildcard ('_' or a named pattern) or a
+# named pattern constrained to a set of literals.  Each root signs its own data rule  "lvs"/"doc<R>"/_ ; `mid` adds an
+# intermediate certificate rule below the first root and a data rule signed by it or by the last root.  The text
+# handed to the real compiler is generated from this description, and so is what a name is EXPECTED to match
+# (`roots_matching`), independently of the compiled model.
+ROOT_FAMILY = [
+    # tag, roots [(rule letter, items)], mid
+    ('single-literal', [('A', ['a'])], False),
+    ('single-wild', [('A', [('zone', None)])], False),
+    ('disjoint2', [('A', ['a']), ('B', ['b'])], False),
+    ('disjoint2-mid', [('A', ['a']), ('B', ['b'])], True),
+    ('overlap2', [('A', [('zone', None)]), ('B', ['b'])], False),
+    ('overlap2-anon', [('A', [('_', None)]), ('B', ['b'])], False),
+    ('same-pattern2', [('A', []), ('B', [])], False),
+    ('depth2', [('A', []), ('B', ['b'])], False),
+    ('depth2-deep', [('A', ['a']), ('B', ['a', 'mid'])], False),
+    ('constrained2', [('A', [('zone', ('a', 'c'))]), ('B', [('zone', ('b', 'c'))])], False),
+    ('disjoint3', [('A', ['a']), ('B', ['b']), ('C', ['c'])], False),
+    ('overlap3-no-common', [('A', [('zone', None)]), ('B', ['b']), ('C', ['c'])], False),
+    ('nested3', [('A', [('zone', None)]), ('B', [('zone', ('b', 'c'))]), ('C', ['c'])], True),
+    ('no-signing', [], False),
+]
+ROOT_PREFIXES = [[], ['a'], ['b'], ['c'], ['docA'], ['a', 'mid'], ['a', 'b']]
+
+
+def root_family_text(roots, mid):
+    out = ['#KEY: "KEY"/_/_/_']
+    for nm, items in roots:
+        pat, cons = ['"lvs"'], []
+        for it in items:
+            if isinstance(it, str):
+                pat.append(f'"{it}"')
+            else:
+                pat.append(it[0])
+                if it[1] is not None:
+                    cons.append(f'{it[0]}: ' + '|'.join(f'"{x}"' for x in it[1]))
+        out.append(f'#root{nm}: ' + '/'.join(pat) + '/#KEY' + (' & {' + ', '.join(cons) + '}' if cons else ''))
+        out.append(f'#doc{nm}: "lvs"/"doc{nm}"/_ <= #root{nm}')
+    if not roots:
+        out.append('#rootA: "lvs"/"a"/#KEY')
+        out.append('#docA: "lvs"/"docA"/_')
+    if mid:
+        out.append(f'#mid: "lvs"/"x"/"mid"/#KEY <= #root{roots[0][0]}')
+        out.append(f'#docM: "lvs"/"docM"/_ <= #mid | #root{roots[-1][0]}')
+    return '\n'.join(out) + '\n'
+
+
+def roots_matching(roots, site, prefix):
+    """rule names of the roots that the key name /<site>/<prefix>/KEY/<id> (and its certificate names) must match"""
+    out = set()
+    for nm, items in roots:
+        if site == 'lvs' and len(items) == len(prefix) and all(
+                (it == x) if isinstance(it, str) else (it[1] is None or x in it[1]) for it, x in zip(items, prefix)):
+            out.add(f'#root{nm}')
+    return out
+
 
 class Diverged(Exception):
     pass
@@ -113,6 +176,10 @@ class Env:
         for text, fns in ((LVS_MAIN, DEFAULT_USER_FNS), (LVS_STRICT, DEFAULT_USER_FNS),
                           (LVS_LOOPY, DEFAULT_USER_FNS), (LVS_NOFN, DEFAULT_USER_FNS)):
             self.schemas.append(Checker(compile_lvs(text), fns))
+        self.root_family = []           # (schema id, tag, roots, mid)
+        for tag, roots, mid in ROOT_FAMILY:
+            self.root_family.append((len(self.schemas), tag, roots, mid))
+            self.schemas.append(Checker(compile_lvs(root_family_text(roots, mid)), DEFAULT_USER_FNS))
         self._ver = {}
         self._chk = {}
         self._ts = 0
@@ -923,6 +990,54 @@ def gen_anchors(ctx, env):
                              sample={'tag': tag, 'obs': [o[:3] for o in impl]})
 
 
+def gen_roots(ctx, env):
+    """constructor against schemas with 0..3 roots of trust whose patterns are disjoint / overlapping / identical /
+    of different depth / constrained: a properly self-signed anchor for every candidate key name, i.e. matching all
+    roots, some but not all, only a non-root rule, or nothing; then data of every root's zone validated by the
+    instance (if it was built)."""
+    from ndn.encoding import Name
+    rng = ctx.rng
+    for rnd in range(ctx.n(2, 12)):
+        for fi, (si, ftag, roots, mid) in enumerate(env.root_family):
+            ck = env.schemas[si]
+            want_roots = {f'#root{nm}' for nm, _ in roots}
+            if set(ck.root_of_trust()) != want_roots:
+                ctx.disagree('schema-oracle', 'roots of trust of the compiled schema differ from the description it was '
+                             'generated from', {'tag': ftag}, sorted(want_roots), sorted(ck.root_of_trust()))
+            for pi, (site, prefix) in enumerate([('lvs', p) for p in ROOT_PREFIXES] + [('zzz', ['a'])]):
+                kt = ('ec', 'rsa', 'ed')[(rnd + fi + pi) % 3]
+                kr = env.pick(rng, kt)
+                k2 = env.pick(rng)
+                while k2[2] == kr[2]:
+                    k2 = env.pick(rng)
+                kn = '/' + '/'.join([site] + prefix + ['KEY', 'r'])
+                rname = env.cert_name(kn, 'self', 1)
+                hit = roots_matching(roots, site, prefix)
+                got = env.match(si, rname)
+                if got[0] != 1 or {bytes(m).decode() for m in got[1]} & want_roots != hit:
+                    ctx.disagree('schema-oracle', 'rules matched by the anchor name differ from the description the '
+                                 'schema was generated from', {'tag': ftag, 'name': kn}, sorted(hit), got)
+                region = ('no-roots-defined' if not roots else 'all-roots' if hit == want_roots else
+                          'some-roots' if hit else 'no-root')
+                if region == 'no-root' and rnd and not ctx.thorough:
+                    continue            # quick: the (large) matches-no-root stratum once, the others every round
+                variants = ['good'] if (rnd + pi) % 3 else ['good', 'signed-by-other']
+                own = env.signer(kr, rname)          # (an RSA signer costs a key import: built once)
+                for variant in variants:
+                    w = World(env)
+                    signer = own if variant == 'good' else env.signer(k2, rname)
+                    a = w.add(env.cert(kn, 'self', 1, kr[2], signer)[1])
+                    ops = [('lvs', si, a, None)]
+                    leaves = [f'/lvs/doc{nm}/x1' for nm, _ in roots] + ['/lvs/docM/x1', '/lvs/other/x1']
+                    for ln in leaves:
+                        ops.append(('val', 0, w.add(env.data(ln, b'payload', own))))
+                    tag = f'roots:{ftag}:{"-".join(prefix) or "top"}@{site}:{variant}:{kt}'
+                    impl = check_history(ctx, env, w, ops, tag)
+                    ctx.case((tag, rnd), nontrivial=True,
+                             stratum=f'roots:{len(roots)}:{region}:{variant}:' + ':'.join(str(x) for x in impl[0][1:2]),
+                             sample={'tag': tag, 'obs': [o[:3] for o in impl]})
+
+
 def gen_histories(ctx, env):
     """several instances (different anchors / schemas / storages), several packets, many orders"""
     rng = ctx.rng
@@ -1020,6 +1135,7 @@ def run(ctx):
     env = Env(ctx)
     gen_same_key(ctx, env)
     gen_anchors(ctx, env)
+    gen_roots(ctx, env)
     gen_loops(ctx, env)
     gen_single(ctx, env)
     gen_histories(ctx, env)
